@@ -13,6 +13,8 @@
 package main
 
 import (
+	"time"
+	"context"
 	"bufio"
 	"bytes"
 	"encoding/hex"
@@ -100,13 +102,20 @@ type verdict struct {
 func check(w *bufio.Writer, goose, mod, rel, outRoot string, v *verdict) {
 	out := filepath.Join(outRoot, strings.ReplaceAll(rel, "/", "_"))
 	os.RemoveAll(out)
-	cmd := exec.Command(goose, "-out", out, "-ignore-errors", "./"+rel)
+	tctx, cancel := context.WithTimeout(context.Background(), 120*time.Second)
+	defer cancel()
+	cmd := exec.CommandContext(tctx, goose, "-out", out, "-ignore-errors", "./"+rel)
 	cmd.Dir = mod
 	cmd.Env = goEnv()
 	var buf bytes.Buffer
 	cmd.Stdout = &buf
 	cmd.Stderr = &buf
 	err := cmd.Run()
+	if tctx.Err() != nil {
+		v.crashes++
+		fmt.Fprintf(w, "MISMATCH kind=no-termination pkg=%s detail=%s\n", rel, hex.EncodeToString([]byte("goose did not terminate within 120 s on this package")))
+		return
+	}
 	st := 0
 	if err != nil {
 		if ee, ok := err.(*exec.ExitError); ok {
